@@ -78,11 +78,84 @@ typedef NMS_ADPCM_PRIVATE PRIV_T ;
 #define POS(p)		((p)->sample_curr)
 #define SAMPLES(p)	((p)->samples)
 #define WNORM		(1.0 * 0x8000)
+#elif defined (CODEC_SDS)
+typedef SDS_PRIVATE PRIV_T ;
+#define PFX sds_
+#define DOMAIN32 1
+static int stub_coder (SF_PRIVATE *psf, SDS_PRIVATE *p) { (void) psf ; (void) p ; stub_block_called ++ ; return 1 ; }
+#define SETUP(p)	do { (p)->bitwidth = 16 ; (p)->frames = 1000 ; (p)->samplesperblock = 60 ; (p)->total_blocks = 10 ; (p)->reader = stub_coder ; (p)->writer = stub_coder ; \
+				(p)->read_block = 1 ; (p)->read_count = SC ; (p)->write_block = 1 ; (p)->write_count = SC ; } while (0)
+#ifdef SEL_READ
+#define POS(p)		((p)->read_count)
+#define SAMPLES(p)	((p)->read_samples)
+#else
+#define POS(p)		((p)->write_count)
+#define SAMPLES(p)	((p)->write_samples)
+#endif
+#define RNORM_F(norm)	((norm) == SF_TRUE ? (float) (1.0 / 0x80000000) : (float) (1.0 / (1 << 16)))
+#define RNORM_D(norm)	((norm) == SF_TRUE ? (1.0 / 0x80000000) : (1.0 / (1 << 16)))
+#define W32_F(norm, x)	((int) (((norm) == SF_TRUE ? (float) (1.0 * 0x80000000) : (float) (1.0 * (1 << 16))) * (x)))
+#define W32_D(norm, x)	((int) (((norm) == SF_TRUE ? (1.0 * 0x80000000) : (1.0 * (1 << 16))) * (x)))
+#elif defined (CODEC_PAF24)
+typedef PAF24_PRIVATE PRIV_T ;
+#define PFX paf24_
+#define DOMAIN32 1
+static int g_samples [10 * CH + 8] ;
+static int g_block [8 * CH + 2] ;
+#define SETUP(p)	do { (p)->channels = CH ; (p)->max_blocks = 100 ; (p)->blocksize = 32 * CH ; (p)->sample_count = 1000 ; (p)->samples = g_samples ; (p)->block = g_block ; \
+				(p)->read_block = 1 ; (p)->read_count = SC ; (p)->write_block = 1 ; (p)->write_count = SC ; } while (0)
+#ifdef SEL_READ
+#define POS(p)		((p)->read_count)
+#else
+#define POS(p)		((p)->write_count)
+#endif
+#define SAMPLES(p)	((p)->samples)
+#define RNORM_F(norm)	((norm) == SF_TRUE ? (float) (1.0 / 0x80000000) : (float) (1.0 / 0x100))
+#define RNORM_D(norm)	((norm) == SF_TRUE ? (1.0 / 0x80000000) : (1.0 / 0x100))
+/* documented rule: normalised <-> full scale; not normalised: the value is the 24-bit sample (MSB-aligned in 32 bits: x 256) */
+#define W32_F(norm, x)	((int) lrintf (((norm) == SF_TRUE ? (float) (1.0 * 0x7FFFFFFF) : (float) 256.0) * (x)))
+#define W32_D(norm, x)	((int) lrint (((norm) == SF_TRUE ? (1.0 * 0x7FFFFFFF) : 256.0) * (x)))
 #else
 #error "CODEC"
 #endif
 
-#if defined (API_s)
+#ifdef DOMAIN32
+typedef int STAGE_T ;
+#define STAGE_ND int
+#else
+typedef short STAGE_T ;
+#define STAGE_ND short
+#endif
+
+#if defined (DOMAIN32) && defined (API_s)
+#define API_T short
+#define API_ND short
+#define READ_FN CAT3 (PFX, read_, s)
+#define WRITE_FN CAT3 (PFX, write_, s)
+#define R_EXPECT(v)	((short) ((v) >> 16))
+#define W_EXPECT(x)	((int) ((unsigned) (int) (x) << 16))
+#elif defined (DOMAIN32) && defined (API_i)
+#define API_T int
+#define API_ND int
+#define READ_FN CAT3 (PFX, read_, i)
+#define WRITE_FN CAT3 (PFX, write_, i)
+#define R_EXPECT(v)	(v)
+#define W_EXPECT(x)	(x)
+#elif defined (DOMAIN32) && defined (API_f)
+#define API_T float
+#define API_ND float
+#define READ_FN CAT3 (PFX, read_, f)
+#define WRITE_FN CAT3 (PFX, write_, f)
+#define R_EXPECT(v)	((float) (RNORM_F (nd_norm) * (v)))
+#define W_EXPECT(x)	W32_F (nd_norm, x)
+#elif defined (DOMAIN32) && defined (API_d)
+#define API_T double
+#define API_ND double
+#define READ_FN CAT3 (PFX, read_, d)
+#define WRITE_FN CAT3 (PFX, write_, d)
+#define R_EXPECT(v)	((double) (RNORM_D (nd_norm) * (v)))
+#define W_EXPECT(x)	W32_D (nd_norm, x)
+#elif defined (API_s)
 #define API_T short
 #define API_ND short
 #define READ_FN CAT3 (PFX, read_, s)
@@ -134,11 +207,11 @@ main (void)
 	SETUP (p) ;
 
 #if defined (SEL_READ)
-	{	short nd_dec [LEN + 2] ;
+	{	STAGE_T nd_dec [LEN + 2] ;
 		API_T *out = malloc (LEN * sizeof (API_T)) ;		/* exact size: any store past item LEN - 1 is an error */
 		VASSUME (out != NULL) ;
 		psf->file.mode = SFM_READ ;
-		ND_FILL (nd_dec, LEN + 2, short) ;
+		ND_FILL (nd_dec, LEN + 2, STAGE_ND) ;
 		for (j = 0 ; j < LEN + 2 ; j++) SAMPLES (p) [SC * CH + j] = nd_dec [j] ;
 		ret = READ_FN (psf, out, LEN) ;
 		VASSERT (ret == LEN, "inside the block every item asked for is delivered") ;
